@@ -18,6 +18,7 @@ import OFV.Proofs.C10Lookup
 import OFV.Proofs.C10Entries
 import OFV.Proofs.C10Filter
 import OFV.Proofs.C10Sum
+import OFV.Proofs.C10Expect
 
 namespace OFV.C10
 open OFV.Model OFV.Model.C10 OFV.Spec OFV.Spec.C10
@@ -188,6 +189,14 @@ theorem expectation_terms_sound (i j s : Nat) (hij : i < j) :
     actFTerm [(j, 1), (i, 1), (j, 0), (i, 0)] s
       = (if s.testBit i && s.testBit j then some (1, s) else none) :=
   ⟨rfl, actFTerm_number i s, actFTerm_two_body i j s hij⟩
+
+/-- **expectation_computational_basis_state, list input, summed over the dictionary**: for an operator whose terms
+are among the constant, `i^ i` and `j^ i^ j i` (`i < j`) on the orbitals of the occupation list (`ExpectOp`: what a
+normal-ordered operator with at most two-body number-conserving diagonal terms contains and all the function reads),
+the double loop over occupied orbitals returns the Spec diagonal element `⟨s| op |s⟩`. -/
+theorem expectation_cbs_sound (op : Op) (occ : List Bool) (s : Nat) (hag : Agree occ s)
+    (hop : ExpectOp occ.length op) : expectCBS op occ = melF op s s :=
+  expectCBS_sound op occ s hag hop
 
 /-! ## get_number_preserving_sparse_operator -/
 
